@@ -735,4 +735,208 @@ theorem flush_fail_any_cap (s s1 : State) (o1 : List Nat) (cap : Nat)
         have := flushStrip_code _ _ _ _ _ _ h1
         simp at this
 
+/-- common part of the analysis of one call on a header-phase state offered all of `x` -/
+theorem header_call_prefix (s : State) (x : List Nat) (nsp0 : NewStreamData) (s1 : State) (o1 : List Nat)
+    (nspX : NewStreamData) (k : Nat)
+    (hp : s.new_stream_pending = some nsp0) (hfresh : nsp0.num_bytes_written = none)
+    (hstrip : flushPreviousStream s [] 1 = ok (s1, o1, SUCCESS))
+    (hlook : headerLoop nsp0 x 0 = ok (nspX, k)) (hI : Inv s) (cap : Nat) (r : Ret)
+    (h : stream s x cap = ok r) :
+    r = ⟨s, NEEDS_MORE_OUTPUT, 0, []⟩ ∨
+    (Inv { s1 with new_stream_pending := some nspX } ∧ s1.last_byte_sanitized = true ∧ o1.length ≤ cap ∧
+      nspX.num_bytes_written = none ∧ nspX.num_bytes_read ≤ 5 ∧ k ≤ x.length ∧
+      (nspX.sufficient = false → k = x.length) ∧
+      (if nspX.sufficient = false then ok ⟨{ s1 with new_stream_pending := some nspX }, NEEDS_MORE_INPUT, k, o1⟩ else
+       if cap = o1.length then ok ⟨{ s1 with new_stream_pending := some nspX }, NEEDS_MORE_OUTPUT, k, o1⟩ else
+       (shiftAndCheckNewStreamHeader { s1 with new_stream_pending := some nspX } nspX o1 cap).bind fun y =>
+       if y.2.2 ≠ SUCCESS then ok ⟨y.1, y.2.2, k, y.2.1⟩ else
+       if y.2.1.length = cap then ok ⟨y.1, NEEDS_MORE_OUTPUT, k, y.2.1⟩ else
+       streamTail y.1 x k y.2.1 cap) = ok r) := by
+  rcases flush_any_cap s s1 o1 cap hstrip with hf | ⟨hc0, hf⟩
+  · right
+    have hfl := flush_inv s [] cap hI (Nat.zero_le _) (by rw [hp]; rfl)
+    rw [hf, sat_ok] at hfl
+    obtain ⟨hfp, hI1⟩ := hfl
+    dsimp only at hI1
+    have hsan1 : s1.last_byte_sanitized = true := hfp.sanit rfl
+    have hp1 : s1.new_stream_pending = some nsp0 := by rw [← hp]; exact hfp.pending
+    have hole : o1.length ≤ cap := hfp.out_le
+    obtain ⟨hr50, _⟩ := hI.pend nsp0 hp
+    have hls := headerLoop_sat x nsp0 0 hr50
+    rw [hlook, sat_ok] at hls
+    obtain ⟨hwF, hr5F, _, hkx, _, hsx⟩ := hls
+    dsimp only at hwF hr5F hkx hsx
+    have hwF' : nspX.num_bytes_written = none := by rw [hwF]; exact hfresh
+    rw [stream_of_flush s s1 nsp0 x cap o1 hp hf] at h
+    have hstep : (if nsp0.num_bytes_written.isNone = true ∧ nsp0.num_bytes_read < NUM_STREAM_HEADER_BYTES then
+          (headerLoop nsp0 x 0).bind fun x => ok (x.1, x.2, { s1 with new_stream_pending := some x.1 })
+        else ok (nsp0, 0, s1)) = ok (nspX, k, { s1 with new_stream_pending := some nspX }) := by
+      by_cases hc : nsp0.num_bytes_written.isNone = true ∧ nsp0.num_bytes_read < NUM_STREAM_HEADER_BYTES
+      · rw [if_pos hc, hlook]; rfl
+      · rw [if_neg hc]
+        have h5 : nsp0.num_bytes_read = 5 := by
+          rw [hdr5] at hc
+          have : nsp0.num_bytes_written.isNone = true := by rw [hfresh]; rfl
+          have : ¬ nsp0.num_bytes_read < 5 := fun e => hc ⟨this, e⟩
+          omega
+        have hs0 : nsp0.sufficient = true := (sufficient_iff nsp0).mpr (Or.inr h5)
+        have := hlook
+        rw [headerLoop_sufficient nsp0 hs0 x 0] at this
+        simp only [Outcome.ok.injEq, Prod.mk.injEq] at this
+        obtain ⟨e1, e2⟩ := this
+        subst e1 e2
+        rw [state_eta_pending s1 nsp0 hp1]
+    rw [hstep] at h
+    simp only [bind_ok] at h
+    refine ⟨hI1.with_pending nspX (by rw [hp1]; rfl) hr5F hwF', hsan1, hole, hwF', hr5F, by simpa using hkx, ?_, ?_⟩
+    · intro hns
+      rcases hsx with e | e
+      · rw [e] at hns; simp at hns
+      · simpa using e
+    · cases hsf : nspX.sufficient with
+      | false =>
+        rw [if_pos ⟨by rw [hwF']; rfl, by rw [hsf]; simp⟩] at h
+        simp only [if_true]
+        exact h
+      | true =>
+        rw [if_neg (by rw [hsf]; simp)] at h
+        simp only [Bool.true_eq_false, if_false]
+        exact h
+  · left
+    subst hc0
+    unfold stream at h
+    rw [hp] at h
+    dsimp only at h
+    rw [hf] at h
+    simp only [bind_ok, ne_eq] at h
+    rw [if_pos (by simp)] at h
+    simp only [Outcome.ok.injEq] at h
+    exact h.symm
+
+/-- the buffer ends before the look-ahead is complete: the run takes all of it, emits the
+strip's byte (if any) and waits in the header phase -/
+theorem feedBuffer_partial : ∀ (fuel : Nat) (s : State) (x caps acc : List Nat) (R : Run)
+    (nsp0 : NewStreamData) (s1 : State) (o1 : List Nat) (nspX : NewStreamData) (k : Nat),
+    s.new_stream_pending = some nsp0 → nsp0.num_bytes_written = none →
+    flushPreviousStream s [] 1 = ok (s1, o1, SUCCESS) → headerLoop nsp0 x 0 = ok (nspX, k) →
+    nspX.sufficient = false → Inv s →
+    feedBuffer fuel s x caps acc = some R →
+    R = ⟨{ s1 with new_stream_pending := some nspX }, NEEDS_MORE_INPUT, acc ++ o1⟩ ∧ k = x.length := by
+  intro fuel
+  induction fuel with
+  | zero => intro s x caps acc R _ _ _ _ _ _ _ _ _ _ _ h; simp [feedBuffer] at h
+  | succ f ih =>
+    intro s x caps acc R nsp0 s1 o1 nspX k hp hfresh hstrip hlook hins hI h
+    unfold feedBuffer at h
+    dsimp only at h
+    cases hst : stream s x (caps.headD (x.length + 8)) with
+    | panic t => rw [hst] at h; simp at h
+    | ok r =>
+      rw [hst] at h
+      dsimp only at h
+      rcases header_call_prefix s x nsp0 s1 o1 nspX k hp hfresh hstrip hlook hI _ r hst with hr | ⟨_, _, _, _, _, _, hkx, hr⟩
+      · subst hr
+        simp only [isTerminal, NEEDS_MORE_OUTPUT, NEEDS_MORE_INPUT, List.drop_zero, List.append_nil] at h
+        rw [if_neg (by simp), if_neg (by simp)] at h
+        exact ih s x caps.tail acc R nsp0 s1 o1 nspX k hp hfresh hstrip hlook hins hI h
+      · rw [if_pos hins] at hr
+        simp only [Outcome.ok.injEq] at hr
+        subst hr
+        have hk := hkx hins
+        simp only [isTerminal, NEEDS_MORE_INPUT] at h
+        rw [if_neg (by simp), if_pos ⟨trivial, by rw [hk]; simp⟩] at h
+        simp only [Option.some.injEq] at h
+        exact ⟨h.symm, hk⟩
+
+theorem shiftHead_inl_code (s : State) (nsp : NewStreamData) (c : Nat) (h : shiftHead s nsp = ok (.inl c)) :
+    c = INVALID_WINDOW_SIZE ∨ c = WINDOW_SIZE_LARGER ∨ c = NOT_CRAFTED_FOR_CONCAT := by
+  unfold shiftHead at h
+  split at h
+  · simp at h
+  cases hpw : parseWindowSize (nsp.bytes_so_far.toList.take nsp.num_bytes_read) with
+  | panic t => rw [hpw] at h; simp at h
+  | ok pw =>
+    rw [hpw] at h
+    simp only [bind_ok] at h
+    cases pw with
+    | none => simp at h; exact Or.inl h.symm
+    | some wo =>
+      obtain ⟨wsz, wo⟩ := wo
+      dsimp only at h
+      split at h
+      · split at h <;> simp at h
+      split at h
+      · simp at h; exact Or.inr (Or.inl h.symm)
+      split at h
+      · simp at h; exact Or.inr (Or.inr h.symm)
+      cases hvo : detectVarlenOffset (nsp.bytes_so_far.toList.take nsp.num_bytes_read) with
+      | panic t => rw [hvo] at h; simp at h
+      | ok vo =>
+        rw [hvo] at h
+        simp only [bind_ok] at h
+        cases vo with
+        | none => simp at h; exact Or.inr (Or.inr h.symm)
+        | some v =>
+          dsimp only at h
+          split at h
+          · simp at h; exact Or.inr (Or.inr h.symm)
+          · cases hsr : shiftRealign s nsp wo v [] 1 with
+            | panic t => rw [hsr] at h; simp at h
+            | ok r => rw [hsr] at h; simp at h
+
+/-- the header is refused: the run reports the terminal code, having emitted only the strip's byte -/
+theorem feedBuffer_rejected : ∀ (fuel : Nat) (s : State) (x caps acc : List Nat) (R : Run)
+    (nsp0 : NewStreamData) (s1 : State) (o1 : List Nat) (nspX : NewStreamData) (k c : Nat),
+    s.new_stream_pending = some nsp0 → nsp0.num_bytes_written = none →
+    flushPreviousStream s [] 1 = ok (s1, o1, SUCCESS) → headerLoop nsp0 x 0 = ok (nspX, k) →
+    nspX.sufficient = true → shiftHead { s1 with new_stream_pending := some nspX } nspX = ok (.inl c) →
+    Inv s → Started s →
+    feedBuffer fuel s x caps acc = some R →
+    R = ⟨{ s1 with new_stream_pending := some nspX }, c, acc ++ o1⟩ := by
+  intro fuel
+  induction fuel with
+  | zero => intro s x caps acc R _ _ _ _ _ _ _ _ _ _ _ _ _ _ h; simp [feedBuffer] at h
+  | succ f ih =>
+    intro s x caps acc R nsp0 s1 o1 nspX k c hp hfresh hstrip hlook hsuf hhead hI hS h
+    have hcode := shiftHead_inl_code _ _ c hhead
+    have hterm : isTerminal c = true := by rcases hcode with e | e | e <;> rw [e] <;> decide
+    unfold feedBuffer at h
+    dsimp only at h
+    cases hst : stream s x (caps.headD (x.length + 8)) with
+    | panic t => rw [hst] at h; simp at h
+    | ok r =>
+      rw [hst] at h
+      dsimp only at h
+      have hpost := stream_sat s x (caps.headD (x.length + 8)) hI hS
+      rw [hst, sat_ok] at hpost
+      rcases header_call_prefix s x nsp0 s1 o1 nspX k hp hfresh hstrip hlook hI _ r hst with
+        hr | ⟨hI2, hsan1, hole, hwX, hr5X, _, _, hr⟩
+      · subst hr
+        simp only [isTerminal, NEEDS_MORE_OUTPUT, NEEDS_MORE_INPUT, List.drop_zero, List.append_nil] at h
+        rw [if_neg (by simp), if_neg (by simp)] at h
+        exact ih s x caps.tail acc R nsp0 s1 o1 nspX k c hp hfresh hstrip hlook hsuf hhead hI hS h
+      · rw [if_neg (by rw [hsuf]; simp)] at hr
+        by_cases hfull : caps.headD (x.length + 8) = o1.length
+        · rw [if_pos hfull] at hr
+          simp only [Outcome.ok.injEq] at hr
+          have hnt : isTerminal r.code = false := by rw [← hr]; rfl
+          rw [hnt] at h
+          simp only [Bool.false_eq_true, if_false] at h
+          rw [if_neg (by rw [← hr]; simp)] at h
+          rw [← hr] at h hpost
+          dsimp only at h
+          have hS2 : Started { s1 with new_stream_pending := some nspX } := hpost.started
+          have := ih { s1 with new_stream_pending := some nspX } (x.drop k) caps.tail (acc ++ o1) R nspX
+            { s1 with new_stream_pending := some nspX } [] nspX 0 c rfl hwX
+            (flush_sanitized _ [] 1 hsan1) (headerLoop_sufficient nspX hsuf _ 0) hsuf hhead hI2 hS2 h
+          rw [this]; simp
+        · rw [if_neg hfull, shiftAndCheck_factor _ nspX o1 _ hwX (by omega), hhead] at hr
+          simp only [bind_ok, shiftFinish] at hr
+          rw [if_pos (by rcases hcode with e | e | e <;> rw [e] <;> simp)] at hr
+          simp only [Outcome.ok.injEq] at hr
+          subst hr
+          rw [hterm] at h
+          simp only [if_true, Option.some.injEq] at h
+          exact h.symm
+
 end BV.Concat
